@@ -735,7 +735,7 @@ fn exec_tx_req(r: &TxReq, rec: &str) -> (String, TxStats) {
     let (tracer, _) = run_insp(r, tr);
     let (recd, rg) = run_insp(r, RecGas::default());
     let class = match &plain {
-        Err(e) => format!("rejected:{}", e.split(|c: char| !c.is_alphanumeric()).next().unwrap_or("?")),
+        Err(e) => format!("rejected:{}", e.split(|c: char| !c.is_alphanumeric()).filter(|x| !x.is_empty()).nth(1).unwrap_or("?")),
         Ok(v) => v.0.split(|c: char| !c.is_alphanumeric()).next().unwrap_or("?").to_string(),
     };
     let stats = TxStats { rg: Some(rg), class };
@@ -1414,7 +1414,9 @@ pub fn run(seed: u64, n: usize, replay: Option<Vec<String>>, out: &mut Out) {
                 ));
             }
         }
-        out.count(&format!("reply:{}", reply.split(' ').next().unwrap_or("?")));
+        let first = reply.split(' ').next().unwrap_or("?");
+        let first = first.split('=').next().unwrap_or("?");
+        out.count(&format!("reply:{}", if ir_of(first).is_some() { "<InstructionResult>" } else { first }));
         out.push(l, reply);
     }
 }
